@@ -80,6 +80,8 @@ class Sim:
         self.tls = threading.local()
         self.affected = set()  # reaction keys touched by a fired fault
         self.affected_all = False
+        self.affected_rows = set()  # (batch number, row id, reaction key) of rows whose own jobs were faulted
+        self.batch_no = 0
         self.reactants_to_rxn = {}
         self.interleave = hashlib.blake2b(digest_size=8)
         self.bytes_written = 0
@@ -157,13 +159,16 @@ class Sim:
                 return e
         return None
 
-    def fire(self, e, rxn_keys=None, record=True):
-        """Record that a planned fault actually took effect."""
+    def fire(self, e, rxn_keys=None, record=True, row=None):
+        """Record that a planned fault actually took effect. `row` = (batch, id, rxn) pins it to one result
+        row (duplicates of a reaction are separate rows); otherwise every row of the reaction counts."""
         self.fired[e["site"] + "." + e["kind"]] += 1
         if record:
             self.fired_list.append(e)
         self.event("fault", e["site"], e["kind"], list(e["key"]))
-        if rxn_keys is None:
+        if row is not None:
+            self.affected_rows.add(row)
+        elif rxn_keys is None:
             self.affected_all = True
         else:
             self.affected.update(rxn_keys)
